@@ -19,6 +19,7 @@ VARIANTS = ["Alpha", "DryRun", "Level2", "OutDir", "Jobs", "VerboseMode", "Input
             "TargetDir", "Kilo", "Lima", "MikeNovember", "Zulu", "MaxZone", "QuietX", "YankeeZ"]
 LETTERS = "abcdefgijklmnopqrstuwxyz"
 NONASCII_LETTERS = ["ß", "ε", "λ", "é", "я"]
+CHUNK_BREAK = "\x00chunk-break"
 # Rust keywords usable as raw identifiers: `r#type: T` is the option `--type` / `-t`
 RAW = ["type", "loop", "match", "move", "where"]
 
@@ -113,7 +114,7 @@ class Field:
         self.base = "String"    # inner type
         self.shape = "plain"    # plain | option | vec
         self.naming = []        # [("short", None|c) | ("long", None|s)]
-        self.env = None
+        self.env = []           # environment variables, in declaration order
         self.consumer = None    # None | ("argument", meta, turbofish) | ("positional", meta) | ("switch",) | ("flag", p, a) | ("req_flag", v)
         self.post = []          # [("optional",) ("many",) ("some", msg) ("fallback", lit) ("guard", fn, msg) ("hide",) ("hide_usage",) ("group_help", s) ("count",) ("last",) ("catch",)]
         self.doc = None
@@ -186,8 +187,8 @@ class Field:
                 ann.append("short('%s')" % arg)
             else:
                 ann.append("long(%s)" % rust_str(arg))
-        if self.env:
-            ann.append("env(%s)" % rust_str(self.env))
+        for e in self.env:
+            ann.append("env(%s)" % rust_str(e))
         if self.consumer:
             c = self.consumer
             if c[0] == "argument":
@@ -251,8 +252,8 @@ class Field:
                     parts.append("short('%s')" % (arg if arg else self.name[0]))
                 else:
                     parts.append("long(%s)" % rust_str(arg if arg else kebab(self.name)))
-            if self.env:
-                parts.append("env(%s)" % rust_str(self.env))
+            for e in self.env:
+                parts.append("env(%s)" % rust_str(e))
             e = ".".join(parts)
             if help_s is not None:
                 e += ".help(%s)" % rust_str(help_s)
@@ -397,8 +398,17 @@ def gen_named_field(rng, names, tag):
         f.doc = ["help for %s" % tag]
         if rng.random() < 0.2:
             f.doc.append("second line of %s" % tag)
+    # one or two environment variables (never set while the comparison runs: the item is simply
+    # absent, help shows the first one)
+    if f.kind() in ("arg", "flag") and rng.random() < 0.15:
+        f.env = ["BPAF_VERIF_DERIVE_%s" % tag.upper()]
+        if rng.random() < 0.5:
+            f.env.append("BPAF_VERIF_DERIVE_%s_B" % tag.upper())
     if f.rust_ty is None:
         inner = f.base
+        if inner == "bool" and rng.random() < 0.3:
+            # `bool` written through a path is still a switch
+            inner = rng.choice(["::core::primitive::bool", "std::primitive::bool"])
         f.rust_ty = {"plain": inner, "option": "Option<%s>" % inner, "vec": "Vec<%s>" % inner}[f.shape]
     return f
 
@@ -435,9 +445,12 @@ def gen_fields(rng, names, tag, allow_pos=True):
 def doc_blocks(rng, tag):
     """descr / header / footer blocks separated by two empty lines"""
     blocks = []
-    n = rng.choice([0, 1, 1, 2, 3])
-    for i in range(n):
+    n = rng.choice([0, 1, 1, 2, 3, 4])
+    for i in range(min(n, 3)):
         blocks.append(["%s block %d of %s" % (["descr", "header", "footer"][i], i, tag)])
+    if n == 4:
+        # everything behind the second break belongs to the footer: a footer of two chunks
+        blocks[2] += [CHUNK_BREAK, "second footer chunk of %s" % tag]
     return blocks
 
 
@@ -447,7 +460,10 @@ def blocks_to_doc(blocks, indent):
         if i:
             out += "%s///\n%s///\n" % (indent, indent)
         for l in b:
-            out += "%s/// %s\n" % (indent, l)
+            if l == CHUNK_BREAK:
+                out += "%s///\n%s///\n" % (indent, indent)
+            else:
+                out += "%s/// %s\n" % (indent, l)
     return out
 
 
@@ -455,7 +471,7 @@ def blocks_to_calls(blocks, explicit=None):
     explicit = explicit or {}
     slots = {}
     for name, b in zip(["descr", "header", "footer"], blocks):
-        slots[name] = "\n".join(b)
+        slots[name] = "\n".join(l for l in b if l != CHUNK_BREAK)
     slots.update(explicit)
     e = ""
     for name in ["descr", "header", "footer"]:
@@ -914,6 +930,7 @@ def gen_enum(rng, ix):
                 req.base, req.shape, req.rust_ty = "u32", "plain", "u32"
                 req.consumer, req.post = None, []
                 v.fields.insert(0, req)
+                v.adjacent = rng.random() < 0.3
                 vectors += vectors_for(v.fields, rng)
         t.variants.append(v)
     if rng.random() < 0.2:
@@ -983,6 +1000,8 @@ def enum_src(t):
             m += "        construct!(%s::%s(%s))\n    };\n" % (
                 t.name, v.name, ", ".join("p%d" % i for i in range(len(v.fields))))
         elif v.kind == "fields":
+            if getattr(v, "adjacent", False):
+                d += "    #[bpaf(adjacent)]\n"
             d += "    %s {\n" % v.name
             for f in v.fields:
                 d += f.derive_src("        ")
@@ -990,8 +1009,9 @@ def enum_src(t):
             m += "    let %s = {\n" % ident
             for f in v.fields:
                 m += "        let %s = %s;\n" % (rid(f.name), f.manual_src())
-            m += "        construct!(%s::%s { %s })\n    };\n" % (
-                t.name, v.name, ", ".join(rid(f.name) for f in v.fields))
+            m += "        construct!(%s::%s { %s })%s\n    };\n" % (
+                t.name, v.name, ", ".join(rid(f.name) for f in v.fields),
+                ".adjacent()" if getattr(v, "adjacent", False) else "")
         else:
             ann = ["command" if v.cmd_name is None else "command(%s)" % rust_str(v.cmd_name)]
             if v.short:
